@@ -154,6 +154,10 @@ type StreamOpts struct {
 	Mangle func(off int64, b []byte) []byte
 	// CutAt >= 0: the connection is reset once this many bytes were delivered to the reader
 	CutAt int64
+	// HoldAt > 0: the bytes from this stream offset on reach the reader only HoldFor after they were
+	// written (a lost-and-retransmitted packet, a slow link): the reader sees a segment arrive in two parts
+	HoldAt  int64
+	HoldFor time.Duration
 }
 
 type pipe struct {
@@ -165,6 +169,7 @@ type pipe struct {
 	opts    StreamOpts
 	tap     *StreamTap
 	stalled bool // reader has stopped reading (harness-controlled): nothing is consumed
+	heldTil int64 // virtual time at which the bytes from opts.HoldAt on become readable (0 = not written yet)
 }
 
 type Conn struct {
@@ -177,8 +182,22 @@ type Conn struct {
 	peer         *Conn
 }
 
+// avail is the number of buffered bytes the reader may take now.
+func (p *pipe) avail() int {
+	n := len(p.buf)
+	if p.opts.HoldAt > 0 && (p.heldTil == 0 || now() < p.heldTil) {
+		if lim := p.opts.HoldAt - p.rdOff; lim < int64(n) {
+			if lim < 0 {
+				lim = 0
+			}
+			n = int(lim)
+		}
+	}
+	return n
+}
+
 func (c *Conn) readable() bool {
-	return c.closed || len(c.rd.buf) > 0 || c.rd.closed || c.rd.reset || (c.rdl != 0 && now() >= c.rdl)
+	return c.closed || c.rd.avail() > 0 || (c.rd.closed && len(c.rd.buf) == 0) || c.rd.reset || (c.rdl != 0 && now() >= c.rdl)
 }
 
 func (c *Conn) Read(p []byte) (int, error) {
@@ -193,11 +212,11 @@ func (c *Conn) Read(p []byte) (int, error) {
 		if c.rdl != 0 && now() >= c.rdl {
 			return 0, ErrTimeout
 		}
-		if len(c.rd.buf) > 0 {
+		if c.rd.avail() > 0 {
 			if len(p) == 0 {
 				return 0, nil
 			}
-			n := len(c.rd.buf)
+			n := c.rd.avail()
 			if n > len(p) {
 				n = len(p)
 			}
@@ -219,10 +238,14 @@ func (c *Conn) Read(p []byte) (int, error) {
 			}
 			return n, nil
 		}
-		if c.rd.closed {
+		if c.rd.closed && len(c.rd.buf) == 0 {
 			return 0, io.EOF
 		}
-		vsched.Block("stream read", c.readable, c.rdl)
+		wake := c.rdl
+		if h := c.rd.heldTil; h > now() && (wake == 0 || h < wake) {
+			wake = h
+		}
+		vsched.Block("stream read", c.readable, wake)
 	}
 }
 
@@ -262,6 +285,10 @@ func (c *Conn) Write(p []byte) (int, error) {
 			}
 			w.wrOff += int64(room)
 			w.buf = append(w.buf, chunk...)
+			if w.opts.HoldAt > 0 && w.heldTil == 0 && w.rdOff+int64(len(w.buf)) > w.opts.HoldAt {
+				w.heldTil = now() + int64(w.opts.HoldFor)
+				wakeAt(w.heldTil)
+			}
 			p = p[room:]
 			total += room
 		}
